@@ -21,9 +21,17 @@ RULE = ("seeded generator of relay histories: (a) copyTwoWayEx/copyTwoWay of the
         "absent (io.Copy path); teardown delay; request phase: the scripted client stream starts with the request frame (address 1..2048 bytes, "
         "padding 0..4096, arriving whole, byte-wise, cut at every field boundary or at random) followed by the payload, whose first segment "
         "(1 byte .. 40000, around bufio's 4096) arrives in the same segment as the tail of the request (fast open) or later; the harness parses "
-        "it with quicvarint.Read + protocol.ReadTCPRequest and relays from the same stream. (b) end-to-end: real server + real client.TCP over loopback QUIC (fast open on/off) "
+        "it with quicvarint.Read + protocol.ReadTCPRequest and relays from the same stream; cross-relay histories (xrelay): 2-4 relays in ONE bubble "
+        "sharing the real copyBufPool (GOMAXPROCS 1, so the pool's hand-out order is reproducible), each with its own ends, logger and payload pattern "
+        "(distinct multipliers): directed ones - a relay ends in one direction (EOF / error / veto / failed write) while its other direction is parked in "
+        "Read, late bytes reach that Read between the return of the copy and the Close of the ends, and meanwhile 1-3 relays started after the return hold a "
+        "chunk of either direction inside LogTraffic or a slow Write - and undirected ones (random relay histories started within 4 ms); every relay is judged "
+        "on its own log and sinks by the single-relay verdict, the merged log (with the identity of the memory handed to every Read / Write) is replayed "
+        "against one LTS per relay plus the buffer-ownership invariant. (b) end-to-end: real server + real client.TCP over loopback QUIC (fast open on/off) "
         "against a scripted target; with fast open the client writes its first bytes the moment TCP() returns (before the server can have "
-        "parsed the request), over several connections of one client. Non-trivial = bytes were forwarded in a direction and something other than a plain EOF ended the "
+        "parsed the request), over several connections of one client; one-way uploads (TCP(); Write(payload) in chunks; Close(); no Read at all - with fast open "
+        "the connection is closed before it ever became Established) with eager twins, a server-side dial that takes 0-300 ms (quick) / up to 1 s, payloads of 1 byte .. 200 KB, "
+        "judged when the server has closed the target connection: the target holds the whole payload. Non-trivial = bytes were forwarded in a direction and something other than a plain EOF ended the "
         "relay, or both directions forwarded. Distinct = distinct JSON case.")
 ASSUMPTIONS = [
     "sinks obey the io.Writer contract (n < len(p) only with a non-nil error): copyBufferLog ignores the count (hypothesis wok of the prefix/accounting theorems; quic-go streams and net.Conn do)",
@@ -40,7 +48,11 @@ TRUSTED = ["modelled rather than verified: core/server/copy.go, the hook-less pa
            "level (b) runs the real handleTCPRequest/client.TCP end to end but is judged by the harness verdict only (its runs are not replayed "
            "against the LTS)",
            "level (a) sources/sinks/logger are in-memory fakes inside a testing/synctest bubble; written chunks above 2 KiB are compared with the "
-           "model through the (offset, length) descriptor the harness verified byte by byte, smaller ones through a 32-bit digest"]
+           "model through the (offset, length) descriptor the harness verified byte by byte, smaller ones through a 32-bit digest",
+           "cross-relay runs: buffer identity = address of the slice handed to Read / Write, interned by the harness; sync.Pool with GOMAXPROCS(1); "
+           "model/C06_Pool.v abstracts sync.Pool as a set of free buffers (a Get may also return a new one) and places the deferred Put between the "
+           "loop's decision to return and its channel send; its tie to the code is the ownership check of the replay, not a replay of Get/Put (not visible at the boundary)",
+           "client Close (model/C06_Close.v): quic-go's FIN vs RESET_STREAM semantics are taken as given; tied to the code only through the level (b) one-way upload verdict"]
 PER_SHARD = 40
 EXTRA_TARGETS = ["corr/C06_Corr.vo"]
 FP_VETO = "veto-swallowed-other-direction-returned-first"
@@ -315,6 +327,10 @@ def gen(rng, tier):
         cases.append(gen_req(rng, False))
     for _ in range(6 * scale):
         cases.append(gen_req(rng, True))
+    for _ in range(24 * scale):
+        cases.append(gen_xdirected(rng))
+    for _ in range(10 * scale):
+        cases.append(gen_xrandom(rng))
     return cases
 
 
@@ -350,9 +366,24 @@ def obs_term(c, ev):
     return {"CT": "OCloseT", "CS": "OCloseS", "CC": "OCloseC"}[k]
 
 
+def xto_coq(c, o):
+    """cross-relay run: the merged log with relay index and buffer identity, and every relay's totals"""
+    if o.get("panic") or "xtrace" not in o or len(o.get("rel", [])) != len(c["relays"]):
+        return None
+    if any(str(ev[-1]).startswith("other:") for ev in o["xtrace"] if ev[2] in ("R", "W", "F")):
+        return None
+    rels = "[" + ";".join("XR %s %d %d %d %d %d %d" % ("Logged" if rc["mode"] == "logged" else "Fast", ro["tx"], ro["rx"],
+                                                      ro["sink_up"][0], ro["sink_up"][1], ro["sink_down"][0], ro["sink_down"][1])
+                          for rc, ro in zip(c["relays"], o["rel"])) + "]"
+    tr = "[" + ";".join("XO %d %d (%s)" % (ev[0], ev[1] + 1, obs_term(c["relays"][ev[0]], ev[2:])) for ev in o["xtrace"]) + "]"
+    return "CXRelay %s %s" % (rels, tr)
+
+
 def to_coq(c, o):
     if c["k"] == "e2e":
         return None       # level (b) is judged by the harness verdict only
+    if c["k"] == "xrelay":
+        return xto_coq(c, o)
     if o.get("panic") or "trace" not in o:
         return None
     if any(str(ev[-1]).startswith("other:") for ev in o["trace"] if ev[0] in ("R", "W", "F")):
@@ -373,6 +404,9 @@ def klass(c, o):
     f = o.get("facts") or {}
     if o.get("panic"):
         return "panic"
+    if c["k"] == "xrelay":
+        return "xrelay:n=%d%s%s" % (len(c["relays"]), ":late-read" if f.get("late_reads") else "",
+                                    ":chunk-in-flight-elsewhere" if f.get("inflight_across_late_read") else "")
     tags = [c["k"] + ("+req" + (":glued" if c["req"]["glue"] else "") if c.get("req") else ""), c["mode"], "ret=" + str(o.get("ret"))]
     if f.get("veto"):
         tags.append("veto" + ("U" if f.get("veto_U") else "") + ("D" if f.get("veto_D") else ""))
@@ -389,6 +423,8 @@ def nontrivial(c, o):
     if c["k"] == "e2e":
         return not o.get("skip")
     f = o.get("facts") or {}
+    if c["k"] == "xrelay":
+        return bool(f.get("inflight_across_late_read")) or (f.get("writes", 0) > 1 and len(c["relays"]) > 1)
     both = f.get("fwd_U", 0) > 0 and f.get("fwd_D", 0) > 0
     rough = (f.get("fwd_U", 0) + f.get("fwd_D", 0) > 0) and (f.get("veto") or f.get("wfault_U") or f.get("wfault_D") or o.get("ret") != "nil")
     return bool(both or rough)
@@ -476,7 +512,11 @@ LEVEL_TEXT = ("Machine-checked Coq theorems over a labelled transition system tr
               "position; approved = forwarded + chunk in flight; after a veto the loop only returns errDisconnect; the QUIC connection is closed iff "
               "the first returned error is errDisconnect; a dial error writes the failure response with the server's message and relays nothing; "
               "client view (fast open on/off) over an abstract response codec; over an abstract request codec that consumes exactly its frame, "
-              "the target holds a prefix of the payload the client wrote behind the request and all of it when Up returns nil. The model is tied to /repo on every run by the regenerated buffer size "
+              "the target holds a prefix of the payload the client wrote behind the request and all of it when Up returns nil; "
+              "isolation between relays: in the world of all copy loops over a memory of pooled buffers (Read stores into the loop's buffer, Write hands out what the buffer "
+              "holds then) a buffer has at most one running owner, so every loop's behaviour is a run of the one-loop LTS and its sink holds a prefix of ITS source, "
+              "which fails as soon as a buffer may return to the pool before its loop has finished; the client's Close ends the send side with FIN whatever the "
+              "connection's Established flag (so a fast-open upload closed before any Read is delivered whole), a reset-if-unestablished Close does not. The model is tied to /repo on every run by the regenerated buffer size "
               "and by replaying recorded boundary logs of the real code against the LTS in the kernel (vm_compute).")
 LEVEL_NOTE = ("Trusted: Coq kernel + vm_compute; hand-written model (tie is sampled: recorded boundary logs are replayed, not all schedules); python/Go glue. "
               "No axioms. The clause 'a veto closes that user's connection' is proved only when the vetoed loop is the first to report "
